@@ -210,17 +210,21 @@ def project(r):
                     en=tuple(en), titles=tuple(str(x) for x in r.E_titles), tTR=proj_transform(r.transformTR),
                     tInv=proj_transform(r.transformInv), comment=str(r.comment))
     if isinstance(r, KBandResult):
-        d = getattr(r, "data_list", None)                    # private; reading r.data instead merges the chunks
-        if isinstance(d, (list, tuple)) and len(d) > 0:
-            full = np.vstack(list(d)) if len(d) > 1 else np.asarray(d[0])
-        else:
-            SKIPPED_PRIVATE.add("K__Result.data_list")
-            full = np.asarray(r.data)
+        full = k_full(r)
         return dict(kind="K", nb=int(full.shape[1]), rank=int(r.rank), nk=int(full.shape[0]), data=proj_data(full),
                     tTR=proj_transform(r.transformTR), tInv=proj_transform(r.transformInv))
     if isinstance(r, ResultDict):
         return dict(kind="D", items={k: project(v) for k, v in r.results.items()})
     return dict(kind="?", type=type(r).__name__)
+
+
+def k_full(r):
+    """all k-points of a real K__Result as one array (does not merge its chunks when data_list is there)"""
+    d = getattr(r, "data_list", None)
+    if isinstance(d, (list, tuple)) and len(d) > 0:
+        return np.vstack(list(d)) if len(d) > 1 else np.asarray(d[0])
+    SKIPPED_PRIVATE.add("K__Result.data_list")
+    return np.asarray(r.data)
 
 
 def expected(o):
